@@ -4,6 +4,7 @@ import os
 
 def run_dt(ctx, judge):
     thorough = ctx.tier == "thorough"
+    ctx.level_default = "exploration"
     if ctx.replay:
         ctx.validate("", "Trace_DataTypes", "Trace_DataTypes.cfg", ctx.replay, shards=1, label="replay (recorded trace)",
                      extra_env={"JUDGE": judge}, stack="64m")
